@@ -152,6 +152,27 @@ def _work(job: t.Tuple[t.Any, ...]) -> evid.Local:
                 e = f"\\{h1}{h2}"
                 for s in (f"(cn={e})", f"(cn~={e}a)", f"(cn>=a{e})", f"(cn={e}*a*{e})", f"(cn=*{e}{e}*)", f"(cn:dn:2.4.6:={e})", f"(&(cn={e})(!(o<={e}{e})))"):
                     _emit(loc, s)
+    elif fam == "wide":
+        # filterlist = 1*filter: width is not depth
+        for n in (4, 10, 100, 499, 500, 501, 1000, 3000):
+            for op in "&|":
+                _emit(loc, "(" + op + "".join(f"(uid=u{i})" for i in range(n)) + ")")
+                _emit(loc, "(" + op + "(!(cn=x))" + "".join(f"(cn=*{i}*)" for i in range(n)) + "(o:dn:=z))")
+        for depth in (2, 5, 14):
+            inner = "(cn=x)"
+            for _ in range(depth):
+                inner = "(&" + inner * 1 + "".join(f"(sn={i})" for i in range(40)) + ")"
+            _emit(loc, inner)
+    elif fam == "mb":
+        # raw multi-byte UTF-8 earlier in the text, then items whose parts are located by offset
+        pre = ["(givenName=J\u00fcrgen)", "(cn=\u00e9\u00e9\u00e9\u00e9)", "(o=\u2603*\U0001F600*)", "(cn~=\u4e2d\u6587)", "(a=\u00e9)(b=\u00e9\u00e9)"]
+        post = ["(sn:caseExactMatch:=M\u00fcller)", "(cn:=abcdef)", "(:dn:2.4.6.8.10:=x)", "(cn;lang-de:dn:=y)", "(cn=a*b*c)", "(cn>=\\C3\\a9)", "(!(o:1.2.3:=\u00e9))"]
+        for a in pre:
+            for b in post:
+                for op in "&|":
+                    _emit(loc, f"({op}{a}{b})")
+                    _emit(loc, f"({op}{b}{a}{b})")
+                    _emit(loc, f" ( {op} {a} {b} ) ")
     elif fam == "d3":
         decs = decorate(8, 1)
         a = small[job[1]]
@@ -185,6 +206,7 @@ def run(ctx: evid.Ctx) -> None:
     jobs += [("d2", i) for i in range(8)]
     jobs += [("d3", i) for i in range(8)]
     jobs += [("hex", a, b) for a, b in par.split(22, 11)]
+    jobs += [("wide", 0), ("mb", 0)]
     # the RFC's own examples
     for ex in filt.RFC4515_EXAMPLES:
         r = check_one(ex)
